@@ -1,5 +1,6 @@
 """C02 — start times are forced, bookkeeping matches the schedule, histories replay."""
 import jsl
+import gen
 import oracles
 import slices
 from framework import PropertyCheck, Scenario
@@ -47,6 +48,9 @@ class Check(PropertyCheck):
             if _i % 15 == 3:
                 yield Scenario(["new", f"mark customfilter {rng.randint(0, 10**6)}"], {"family": "custom_filter", "accepted": 3, "style": "custom_filter"})
                 continue
+            if _i % 15 == 13:
+                yield Scenario(["new", f"mark presolve {rng.randint(0, 10**6)}"], {"family": "presolve", "accepted": 3, "style": "presolve"})
+                continue
             if _i % 15 == 11:
                 yield Scenario(["new", f"mark selfunsub {rng.randint(0, 10**6)}"], {"family": "selfunsub", "accepted": 3, "style": "selfunsub"})
                 continue
@@ -59,6 +63,38 @@ class Check(PropertyCheck):
 
     def oracle(self, impl, scenario, index, line, out, ctx):
         res = []
+        if line.startswith("mark presolve"):
+            # a bare dispatcher (no observers) the caller started by hand is handed to a rule solver to finish: afterwards the dispatcher's
+            # bookkeeping still is what ITS schedule implies, and that schedule is the one the solver returned
+            import random as _random
+            import jsl as _jsl
+            from impl import build_instance
+            from job_shop_lib.dispatching.rules import DispatchingRuleSolver
+            r = _random.Random(int(line.split()[2]))
+            _, jobs_ = gen.gen_instance(r, r.choice(["classic", "irregular", "recirc", "flexible"]), max_jobs=3, max_machines=3, max_ops=3)
+            inst_ = build_instance(jobs_)
+            d_ = _jsl.Dispatcher(inst_)
+            tr_ = gen.Tracker(jobs_)
+            for _ in range(r.randint(0, 2)):
+                if tr_.done():
+                    break
+                j, p, m = gen.gen_valid_request(r, tr_)
+                tr_.take(j)
+                d_.dispatch(inst_.jobs[j][p], None if m == "none" else int(m))
+            solver = DispatchingRuleSolver(r.choice(["most_work_remaining", "shortest_processing_time"]), ready_operations_filter=None)
+            try:
+                sched = solver.solve(inst_, d_)
+            except Exception as e:  # pylint: disable=broad-except
+                return [("tracking", f"solve(instance, dispatcher) on a hand-started bare dispatcher raised {e!r}")]
+            t = oracles.derive_tracking(inst_, d_.schedule.schedule)
+            out_ = []
+            if list(d_.machine_next_available_time) != t["mach_next"] or list(d_.job_next_operation_index) != t["job_idx"] or \
+                    list(d_.job_next_available_time) != t["job_next"]:
+                out_.append(("tracking", f"after solve(instance, dispatcher): the dispatcher's tracking (job index {list(d_.job_next_operation_index)}) "
+                             f"is not what its own schedule implies ({t['job_idx']}; {t['count']} operations in dispatcher.schedule)"))
+            if oracles.dump_schedule(sched.schedule) != oracles.dump_schedule(d_.schedule.schedule):
+                out_.append(("tracking", "after solve(instance, dispatcher): the returned schedule is not the dispatcher's schedule"))
+            return out_
         if line.startswith("mark selfunsub"):
             import oracles as _o
             return _o.self_unsub_episode(int(line.split()[2]))["C02"]
